@@ -249,6 +249,37 @@ Qed.
 
 Definition sps_ok (db0 : store) (s : sps) : Prop := grows db0 (sp_db s) /\ res_in (sp_t s).
 
+Lemma storage_A_res t sub nsj lastset cont account j : res_in t -> res_in (storage_A t sub nsj lastset cont account j).
+Proof. intros R. unfold storage_A. destruct (_ && _ && _); [apply res_in_aux|]; exact R. Qed.
+
+Lemma storage_C_res c t1 sub lastset cont account slots acc t2 sub2 p2 :
+  res_in t1 -> storage_C c t1 sub lastset cont account slots acc = (t2, sub2, p2) -> res_in t2.
+Proof.
+  intros R1 EX. unfold storage_C in EX. destruct sub as [sb|].
+  - inversion EX. subst. exact R1.
+  - destruct (lastset && cont).
+    + destruct (get account (t_subs t1)).
+      * inversion EX. subst. exact R1.
+      * destruct (make_chunks c (map fst slots) (a_root acc)) as [tasks|].
+        -- inversion EX. subst. apply res_in_aux. exact R1.
+        -- inversion EX. subst. exact R1.
+    + inversion EX. subst. exact R1.
+Qed.
+
+Lemma storage_D_ok t2 sub2 account slots db0 s p2 :
+  (forall k v, In (k, v) slots -> S account k v) ->
+  grows db0 (sp_db s) -> res_in t2 -> sps_ok db0 (storage_D t2 sub2 account slots s p2).
+Proof.
+  intros HS G R2. unfold storage_D. destruct sub2 as [[sa sl]|].
+  - cbv zeta.
+    match goal with |- context [let '(f, p3) := ?X in _] => destruct X as [f p3] end.
+    split; cbn [sp_db sp_t]; [|apply res_in_aux; exact R2].
+    eapply grows_trans; [exact G|]. apply write_slots_grows.
+    intros k v Hin. apply filter_In in Hin. apply HS. tauto.
+  - split; cbn [sp_db sp_t]; [|exact R2].
+    eapply grows_trans; [exact G|]. apply write_slots_grows. exact HS.
+Qed.
+
 Lemma storage_one_ok c n i account root set db0 s :
   (forall slots, set = Some slots -> forall k v, In (k, v) slots -> S account k v) ->
   sps_ok db0 s -> sps_ok db0 (storage_one c n i account root set s).
@@ -265,27 +296,9 @@ Proof.
   destruct (nth_error (t_needState (sp_t s)) j) as [nsj|].
   2:{ split; cbn [sp_db sp_t]; assumption. }
   cbv zeta.
-  match goal with |- context [if ?b then ?x else sp_t s] => set (t1 := if b then x else sp_t s) end.
-  assert (R1 : res_in t1).
-  { unfold t1. match goal with |- res_in (if ?b then _ else _) => destruct b end; [apply res_in_aux|]; exact R. }
-  match goal with |- context [let '(t2, sub2, p2) := ?X in _] => destruct X as [[t2 sub2] p2] eqn:EX end.
-  assert (R2 : res_in t2).
-  { destruct (sp_sub s) as [sb|].
-    - inversion EX. subst. exact R1.
-    - destruct (Nat.eqb (Datatypes.S i) n && sp_cont s).
-      + destruct (get account (t_subs t1)).
-        * inversion EX. subst. exact R1.
-        * destruct (make_chunks c (map fst slots) (a_root acc)) as [tasks|].
-          -- inversion EX. subst. apply res_in_aux. exact R1.
-          -- inversion EX. subst. exact R1.
-      + inversion EX. subst. exact R1. }
-  destruct sub2 as [[sa sl]|].
-  - match goal with |- context [let '(f, p3) := ?X in _] => destruct X as [f p3] end.
-    split; cbn [sp_db sp_t]; [|apply res_in_aux; exact R2].
-    eapply grows_trans; [exact G|]. apply write_slots_grows.
-    intros k v Hin. apply filter_In in Hin. apply HS. tauto.
-  - split; cbn [sp_db sp_t]; [|exact R2].
-    eapply grows_trans; [exact G|]. apply write_slots_grows. exact HS.
+  destruct (storage_C _ _ _ _ _ _ _ _) as [[t2 sub2] p2] eqn:EX.
+  apply storage_D_ok; [exact HS|exact G|].
+  eapply storage_C_res; [|exact EX]. apply storage_A_res. exact R.
 Qed.
 
 Lemma storage_loop_ok c n db0 : forall accounts sets i s,
@@ -434,8 +447,8 @@ Proof.
   intros [G R]. unfold clean_accounts. destruct (s_tasks s) as [|t r] eqn:E.
   - split; [exact G|rewrite E; constructor].
   - split; cbn [s_db s_tasks]; [exact G|].
-    rewrite <- E. unfold all_res in *. rewrite Forall_forall in *. intros x Hx.
-    apply filter_In in Hx. apply R. tauto.
+    rewrite <- E in *. unfold all_res in *. rewrite Forall_forall in *. intros x Hx.
+    apply filter_In in Hx. destruct Hx as [Hx _]. apply R. exact Hx.
 Qed.
 
 Lemma post_ok db0 s : s_ok db0 s -> s_ok db0 (post s).
